@@ -144,6 +144,32 @@ let a_str = function
   | ABool b -> bool01 b
 let ret_str = function RSkip -> "skip" | RUnit -> "u" | RBool b -> bool01 b
 
+(* operator<< on streams that carry format state.  Configuration c (same table in harness.cpp):
+   (width relative to the length L of the ToString() text, fill character, left adjusted?).  The other
+   state a configuration sets in the harness (hex / oct / showbase / showpos / uppercase / internal /
+   scientific / a digit-grouping locale) has no counterpart here: the model has no such input. *)
+let stream_cfg (c : int) (len : int) : int * int * int =
+  match c with
+  | 5 -> (len + 3, Char.code '*', 0)
+  | 6 -> (len + 2, Char.code '.', 1)
+  | 7 -> (len + 1, Char.code '0', 0)
+  | 8 -> (len, Char.code ' ', 0)
+  | 10 -> (1, Char.code '#', 1)
+  | _ -> (0, Char.code ' ', 0)
+let stream_probe (s : st) (i : int) (c : int) : string =
+  let len = match q s (QToString (nat i)) with ABytes l -> List.length l | _ -> 0 in
+  let (w, fill, adj) = stream_cfg c len in
+  match q s (QStream (nat i, n_of_int w, n_of_int fill, n_of_int adj)) with
+  | ABytes l -> Printf.sprintf "S%d=%s:w%d:1" c (fnv l) (int_of_n (width_after_insert (n_of_int w)))
+  | _ -> Printf.sprintf "S%d=?" c
+let stream_probes (s : st) (i : int) (k : int) (l : int) : string =
+  String.concat "," (List.map (fun d -> stream_probe s i ((k + l + d) mod 12)) [0; 4; 8])
+
+let probes_k (k : int) (s : st) (l : int) : string =
+  let i = phys l in
+  match q s (QSize (nat i)) with
+  | ANum _ -> "/" ^ stream_probes s i k l
+  | _ -> ""
 let probes (s : st) (l : int) : string =
   let i = phys l in
   match q s (QSize (nat i)) with
@@ -229,8 +255,8 @@ let handle (p : string) : string =
       (match r with RBool true | RUnit -> incr accepted | RBool false -> incr refused | RSkip -> ());
       let other = k mod nlog in
       Buffer.add_string out (Printf.sprintf "o%d=%s|%s|%s|%s%s;" k (ret_str r)
-        (String.concat "|" (List.init nlog (slot_str !s))) (eq_str !s) (probes !s tg)
-        (if other <> tg then "|" ^ probes !s other else ""));
+        (String.concat "|" (List.init nlog (slot_str !s))) (eq_str !s) (probes !s tg ^ probes_k k !s tg)
+        (if other <> tg then "|" ^ probes !s other ^ probes_k k !s other else ""));
       Buffer.add_string out (Printf.sprintf "i%d=%s;" k (internal_str !s))) toks
   with Hazard h -> hazard := h);
   let cls =
